@@ -79,6 +79,10 @@ func (ld *Loaded) staticScans(id string) []*FuncResult {
 			out = append(out, ld.globalsScan(fd))
 			continue
 		}
+		if (has || len(planFuncs) > 0 && ld.pkgInPlan(fd.Pkg)) && fd.Kind == "typescovered" {
+			out = append(out, ld.typesCoveredScan(fd))
+			continue
+		}
 		if has && fd.Kind == "methods" {
 			out = append(out, ld.methodsScan(fd))
 			continue
@@ -592,7 +596,9 @@ func (ld *Loaded) methodsScan(fd *FieldDecl) *FuncResult {
 		have := map[string]bool{}
 		for i := 0; i < named.NumMethods(); i++ {
 			have[named.Method(i).Name()] = true
-			if !want[named.Method(i).Name()] {
+			if !want[named.Method(i).Name()] && named.Method(i).Exported() {
+				// (an unexported method cannot be reached through an interface of another package and
+				// is executed in place where it is called)
 				bad = append(bad, "method "+named.Method(i).Name()+" is not listed (no contract covers it)")
 			}
 		}
@@ -601,6 +607,7 @@ func (ld *Loaded) methodsScan(fd *FieldDecl) *FuncResult {
 				bad = append(bad, "listed method "+m+" does not exist")
 			}
 		}
+		_ = have
 	}
 	if !found {
 		bad = append(bad, "type not found")
@@ -711,6 +718,75 @@ func (ld *Loaded) globalsScan(fd *FieldDecl) *FuncResult {
 	sort.Strings(bad)
 	o.StaticOK = len(bad) == 0
 	o.Detail = fmt.Sprintf("package-level variables of %s are written only by the package initialiser (%d uses checked)", fd.Pkg, n)
+	if len(bad) > 0 {
+		o.Detail += "; FAILS: " + strings.Join(bad, " | ")
+	}
+	return &FuncResult{Key: "static:" + o.Name, Obls: []*Obligation{o}}
+}
+
+// exportedMethodSets lists the named (non-interface) types of a package that declare exported
+// methods, with those methods.
+func (ld *Loaded) exportedMethodSets(pkg string) map[string][]string {
+	out := map[string][]string{}
+	for _, p := range ld.prog.AllPackages() {
+		if p.Pkg.Path() != pkg {
+			continue
+		}
+		for _, n := range p.Pkg.Scope().Names() {
+			tn, ok := p.Pkg.Scope().Lookup(n).(*types.TypeName)
+			if !ok || tn.IsAlias() {
+				continue
+			}
+			named, ok := tn.Type().(*types.Named)
+			if !ok {
+				continue
+			}
+			if _, isIface := named.Underlying().(*types.Interface); isIface {
+				continue
+			}
+			for i := 0; i < named.NumMethods(); i++ {
+				if named.Method(i).Exported() {
+					out[n] = append(out[n], named.Method(i).Name())
+				}
+			}
+			sort.Strings(out[n])
+		}
+	}
+	return out
+}
+
+// typesCoveredScan: "types covered" - every named type of the package that declares exported
+// methods has a "methods T: ..." clause (so a type added later, whose methods other code can
+// reach through interfaces, is reported until its methods are under contract and listed).
+func (ld *Loaded) typesCoveredScan(fd *FieldDecl) *FuncResult {
+	short := fd.Pkg
+	if i := strings.LastIndex(short, "/"); i >= 0 {
+		short = short[i+1:]
+	}
+	if short == "go-netty" {
+		short = "netty"
+	}
+	o := &Obligation{Name: short + ".types#frame:method_sets_declared", Kind: "frame", Static: true, Props: fd.Props}
+	declared := map[string]bool{}
+	for _, m := range ld.cs.Fields {
+		if m.Kind == "methods" && m.Pkg == fd.Pkg {
+			declared[m.Type] = true
+		}
+	}
+	var bad []string
+	sets := ld.exportedMethodSets(fd.Pkg)
+	var names []string
+	for n := range sets {
+		names = append(names, n)
+	}
+	sort.Strings(names)
+	for _, n := range names {
+		if !declared[n] {
+			bad = append(bad, fmt.Sprintf("type %s (methods %s) has no 'methods' clause", n, strings.Join(sets[n], " ")))
+		}
+	}
+	o.StaticOK = len(bad) == 0
+	o.Detail = fmt.Sprintf("every type of %s with exported methods (%d types) declares its method set", fd.Pkg, len(names))
 	if len(bad) > 0 {
 		o.Detail += "; FAILS: " + strings.Join(bad, " | ")
 	}
